@@ -1139,10 +1139,12 @@ def run(ctx):
     if ok and ok2:
         relay_audience(ctx)
         pres_notes(ctx)
+        from props import c09load
+        c09load.load_marks(ctx)
     if ctx.replay:
         rp = json.load(open(ctx.replay)).get("replay")
-        if isinstance(rp, dict) and (rp.get("pres_part") or rp.get("relay_part")):
-            # the replay belongs to one of the two slice parts: only that part (and the proofs) is re-run
+        if isinstance(rp, dict) and (rp.get("pres_part") or rp.get("relay_part") or rp.get("loadmarks_part")):
+            # the replay belongs to one of the slice parts: only that part (and the proofs) is re-run
             import vlib
             ctx.coq_props(())
             vlib.proof_violation(ctx)
